@@ -158,7 +158,8 @@ class DisplayOracle:
                     sig = tag
                     break
             else:
-                if self.tracker is not None and self._cur_write is not None and self.tracker.overlap(*self._cur_write):
+                if self.tracker is not None and self._cur_write is not None and (
+                        self.tracker.overlap(*self._cur_write) or self.tracker.tainted(self._cur_write[1])):
                     sig = "overlapping-critical-spans"
                     self.tracker.overlaps_seen += 1
             self.viol = {"oracle": oracle, "sig": sig, "msg": msg, "seq": self.sim.seq}
@@ -337,7 +338,12 @@ class DisplayOracle:
         finally:
             self._cur_write = None
             if self.tracker is not None:
-                self.tracker.write_done(seq, tid)
+                tr = self.tracker
+                if tr.overlap(seq, tid):
+                    tr.taint = seq
+                elif tr.taint is not None and tr.open.get(tid, -1) > tr.taint:
+                    tr.taint = None  # a hook evaluated after the tainting write has re-established the shape
+                tr.write_done(seq, tid)
 
     def _on_write(self, seq, tid, text):
         self._wtid = tid
@@ -486,6 +492,7 @@ class SpanTracker:
         self.sim = sim
         self.open = {}  # tid -> seq at which its span opened
         self.entry = {}  # tid -> seq at which its current writing operation was entered
+        self.taint = None  # seq of the last write whose critical span overlapped (see tainted())
         self.kind = {}  # tid -> kind of its current operation: print | refresh | stop | start | other
         # (threads the harness does not drive -- rich's refresh thread -- only ever refresh)
         self.in_stop = set()
@@ -584,6 +591,19 @@ class SpanTracker:
             if otid != tid and (mine == "print" or self.kind.get(otid, "refresh") == "print"):
                 return True
         return False
+
+    def tainted(self, tid):
+        """Latent face of the same finding: a print whose span overlapped another thread's
+        start/stop/refresh may leave the *remembered frame shape* inconsistent with the screen
+        without any visible damage at its own write (e.g. a buffered block that was rendered
+        during one run of the display and written after the next run had started).  The
+        inconsistency shows at the next hook evaluation, so the first hooked write whose hook
+        was evaluated after the tainting write is explained too; after that write the shape
+        has been re-established and the taint is gone."""
+        if self.taint is None:
+            return False
+        s = self.open.get(tid)
+        return s is not None and s > self.taint
 
     def write_done(self, seq, tid):
         self.events.append((seq, tid, "write", self.kind.get(tid, "refresh")))
